@@ -325,13 +325,17 @@ func genCaseA(t *rapid.T) caseA {
 		k := rapid.SampledFrom(keys).Draw(t, label+"_key")
 		return k[:rapid.IntRange(0, len(k)).Draw(t, label+"_cut")]
 	}
-	switch rapid.IntRange(0, 5).Draw(t, "prefix_kind") {
+	switch rapid.IntRange(0, 6).Draw(t, "prefix_kind") {
 	case 0, 1:
 		c.Prefix = ""
 	case 2, 3, 4:
 		c.Prefix = sub("prefix")
-	default:
+	case 5:
 		c.Prefix = nameGen().Draw(t, "prefix_free")
+	default:
+		// prefixes that are not the beginning of any path the backend could hold: plain strings for the
+		// listing rules (nothing, or whatever literally starts with them, matches)
+		c.Prefix = rapid.SampledFrom([]string{"/", "//", "/a/", "./", "../", "a//", "/" + sub("odd_a"), sub("odd_b") + "//", sub("odd_c") + "/./", sub("odd_d") + "/../"}).Draw(t, "prefix_odd")
 	}
 	c.Delimiter = rapid.SampledFrom([]string{"", "/", "/", "/", "-", ".", "a/", "ab", "~", "a", "é", " "}).Draw(t, "delimiter")
 	switch rapid.IntRange(0, 7).Draw(t, "marker_kind") {
